@@ -720,6 +720,22 @@ func scopeRules(c *Ctx, r *Report, resolveRef, resolve, newFieldSet *ssa.Functio
 					}
 				}
 			}
+			// a resolved value that is returned leaves the scope with the function: whoever evaluates it then does so
+			// after the entry of the setting was released (a helper shared by `:+`, which only tests the value, and by
+			// `:` / `:?`, which read its text)
+			if call, isCall := s.(*ssa.Call); ok && isCall && len(si.opens) > 0 && resolvedValueReturned(call) {
+				callers, _ := c.StaticCallers(fn)
+				for _, cf := range callers {
+					for _, cc := range CallsTo(cf, fn, false) {
+						if c2, isC2 := cc.(*ssa.Call); isC2 {
+							if uses := evalUsesOf(c2); len(uses) > 0 {
+								ok = false
+								why = "the resolved value is returned out of the guard scope opened here and its caller " + c.FnName(cf) + " evaluates it (" + uses[0].String() + " at " + c.Pos(uses[0].Pos()) + ") after the scope was closed: a cycle that closes through this operator is no longer seen and the evaluation recurses without bound"
+							}
+						}
+					}
+				}
+			}
 			r.Check(ok, "R08d", name, "resolve inside scope", c.Pos(s.Pos()), "resolve and the consumption of its value are inside one guard scope", why)
 		}
 	}
@@ -888,6 +904,20 @@ func successfulReturn(ret *ssa.Return) bool {
 }
 
 // evalUsesOf: evaluation-method calls whose receiver derives from the call's first result.
+// resolvedValueReturned: result #0 of the call reaches a return of the calling function.
+func resolvedValueReturned(call *ssa.Call) bool {
+	for _, ret := range Returns(call.Parent()) {
+		for i := range ret.Results {
+			for _, s := range Sources(RetVal(ret, i)) {
+				if e, ok := s.(*ssa.Extract); ok && e.Tuple == ssa.Value(call) && e.Index == 0 {
+					return true
+				}
+			}
+		}
+	}
+	return false
+}
+
 func evalUsesOf(call *ssa.Call) []ssa.Instruction {
 	var out []ssa.Instruction
 	fn := call.Parent()
